@@ -114,6 +114,10 @@ CHECKS = {
          "Two databases of one production SQL engine (the second a clone of the first) exchange commits through one remote: a file remote (file-manifest store) or an HTTP remote (the real remotesrv gRPC service + HTTP file handler + sealer behind the simulated network, the real remotestorage client). Part 1, seeded step sequences: commits on several branches of both sides (divergent histories, same-key edits, destinations that already hold part of the data), dolt_push (also --force), dolt_fetch, dolt_pull, dolt_clone, engine and remote-server restarts, table-file size drawn per run so that a transfer is one or many files; transfers are disturbed by EIO at a chosen file operation on the destination, a disk that stays dead, lost / duplicated / truncated network exchanges, and process death at structural file-operation positions inside the transfer (crash images of the destination under three persistence variants, re-opened by the real code). After every step a walk from the root of every store must read every chunk with bytes that hash to its address; the remote's branches must be exactly where the acknowledged pushes put them; a non-fast-forward push without --force must be refused; fetched / cloned tracking refs equal the remote's heads; a pulled branch contains the remote's head and its own old head. Part 2, seeded S1 schedules: 2-3 sessions commit and push main without --force concurrently, parked before the remote store's Root / Rebase / Commit / AddTableFilesToManifest (file remote) or before every unary RPC and upload (HTTP remote): every acknowledged push must be contained in the remote's final head.",
          "Sampling of histories, fault placements and schedules. The puller's and the chunk fetcher's helper goroutines are not scheduled by the simulator: which file operation a disk fault hits and which crash images are taken can differ between executions of one seed, so a violating run may not replay; the check then tries the other violating runs and reports only one that reproduces (DESIGN §11). Shallow clones, tag pushes, remote branch deletion, git-backed and cloud remotes are not covered; the gRPC/HTTP transports are replaced by in-process delivery (protobuf codec kept).",
          "deterministic simulation: seeded transfer histories with disk / network / crash faults + seeded S1 scheduler over concurrent pushers, reference-walk and ref-model oracles", "DESIGN.md §6.2 C35", "dsim-sql"),
+ "C45": ("exploration",
+         "Three seeded modes behind the production SQL engine. (a) Cluster data plane: the real cluster commit hook (replicate loop, retry back-off, ticker, heartbeat, wait functions, circuit breaker) is installed on the primary's database as the controller installs it; its destination is a standby store (file-manifest or journaling) served by the real remotesrv gRPC service and HTTP file handler behind the simulated network, every exchange passing a gate the run controls; steps interleave primary writes (working-set DML, commits, branches; replication acknowledgement switched on and off) with 'n exchanges may pass', partitions, lossy delivery (lost before/after delivery, duplicated), standby-server restarts and simulated time. At every quiescent point the standby's store, re-opened from disk, shows a root the primary's store has committed (recorded at the store's Commit), never an older one than before, closed under references; a write acknowledged without a replication warning is on the standby; after faults stop the hook is caught up and the standby is at the primary's root within 40 simulated seconds. (b) Push-on-write + read replica over a file or HTTP remote with remote disk faults, network faults and remote restarts: a head-moving statement that returned with nothing reported has its head on the remote; the replica never shows a head the remote has not had; without faults a new replica transaction shows exactly the remote's heads. (c) Standby flag of the database provider toggled: 22 kinds of write through fresh sessions must change nothing while it is a standby.",
+         "Not covered: the graceful role-transition protocol of cluster.Controller (control-plane gRPC service, JWT interceptors and process-global system variables do not fit two controllers into one address space) - the clause on writes acknowledged before a graceful transition is decided only as far as the hook's acknowledgement / catch-up logic the transition waits on; asynchronous push-on-write; users/grants and branch-control replication. The hook's goroutines run freely between gate passages (the run waits for quiescence after each step). Six known findings (version-control procedures accepted on a standby) are listed in known_findings.txt.",
+         "deterministic simulation: real commit hook + remotesrv over a gated simulated network with partitions, loss, duplication, restarts and a fake clock; root-history, reference-walk, acknowledgement and bounded-liveness oracles", "DESIGN.md §6.2 C45", "dsim-sql"),
  "C27": ("exploration",
          "2-3 sessions on main plus one on branch b1 behind the production SQL engine, one keyless table with a secondary index; seeded multi-row INSERT of duplicates, DELETE/UPDATE ... LIMIT n, COMMIT/ROLLBACK, edits on b1, CALL dolt_merge('b1'), clean restarts; a multiset reference model per session and branch predicts every GROUP BY over all columns, COUNT(*) and index lookup; transaction commits and branch merges must combine multiplicity changes row by row and must refuse/report when both sides changed the multiplicity of one row differently.",
          "Refusals for convergent changes (both sides made the same change) are dolt being conservative and are counted, not reported. dolt_merge runs under autocommit (conflicts => rolled back + error); the dolt_conflicts table contents are C43 (pure).",
